@@ -11,6 +11,24 @@ TB = ("Coq 8.16.1 kernel (+vm_compute); no axioms of our own (Print Assumptions 
       "tied by regeneration/correspondence on the cases run")
 
 CHECKS = {
+    "C03": dict(
+        engine="E4 verifier / E5 source",
+        technique="Coq proofs: exception-table binary search spec and its link to the verifier's lookup; fault delivery on the shape machine for all paths of verified code (fault lands in own handler chain, chain finite and in source order, CLEAR_STACK restores the frame with parameters intact, RETHROW unwinds one frame, UNHANDLED only at top level); clause selection theorems on the reference evaluator; fault-program family with closed-form oracle + lock-step on real traces",
+        text="proof: search_spec, handler_is_search, fault_lands_in_own_handler, handler_chain_finite, clear_stack_restores_frame, rethrow_pops_partial_frame / rethrow_returns_to_caller, unhandled_only_at_top_level (every verified module, every reachable state, any call depth, any number of frames under construction) and first_matching_clause / no_clause_propagates / clause_exception_goes_to_later_clauses on Src/Eval.v; tie: direct-call correspondence with exctab.c, the verifier + layout check on every corpus module, generated fault programs (13 fault kinds x argument position x nesting depth x clause order) compared with a closed-form oracle and run in lock-step with the shape machine",
+        ref="DESIGN.md §5 C03",
+        note=TB + "; which exception number a clause tests is data (INT; PUSH_EXCEPT; EQ; JUMPZ): decided at source level and by the generated programs, the shape machine only carries control"),
+    "C13": dict(
+        engine="E4 verifier / E5 source",
+        technique="Coq proofs: a tail transfer keeps the frame (P, F) and the stack is bounded by (open non-tail calls + 1) x max certified frame size in every run of verified code; model of front/tailrec.c marks only (and all direct) tail-position self calls; generated tail-recursive family at N and 10N with peak-sp monitor (hook H1) and code-vs-model marking comparison",
+        text="proof: tail_call_keeps_frame, stack_bounded_by_open_calls, tail_call_constant_stack (corollaries of verify_depth: any number of tail transfers, peak independent of the iteration count), tailrec_marks_only_tail_positions / tailrec_marks_all_direct_tail_self_calls for coq/Src/Tailrec.v; tie: generated shapes (cond, block, match arm, if-let, nested, locals, catch clauses, non-tail controls) run at N=5000/50000 on a 200-slot stack: equal peak sp, peak below the verifier's bound, result equal to the loop; tail sites in the dumped code equal the model's marking",
+        ref="DESIGN.md §5 C13",
+        note=TB),
+    "C14": dict(
+        engine="E4 verifier / E1 gc",
+        technique="Coq proofs over per-opcode write plans (bump/check/write order mirrored from every handler, regenerated skeleton comparison): no write outside the stack and the limit reported exactly when needed, monotonicity in the stack size, on the shape machine for all runs of verified code; allocation on a full heap reports out of memory before writing (GC model); (heap,stack) grid under ASan with exact prediction of the instruction at which the limit fires",
+        text="proof: no_write_outside_stack (check-first tree, every opcode), verified_run_under_limit, limit_monotone_stack, limit_fires_iff_needed, oom_reported; both plan tables (pinned / check-first) are kept and the run probes the real VM to see which the tree implements; tie: static skeleton of all 227 handlers regenerated from the C sources and compared with the model shapes; for every program and stack size the extracted model's prediction (completes / limit at instruction i) must equal the real VM exactly",
+        ref="DESIGN.md §5 C14",
+        note=TB + "; heap size 0 is outside the configured sizes; depth of the C recursion in gc_mark (host stack) not modelled"),
     "C10": dict(
         engine="E3 arith",
         technique="Coq proof by induction over literal expression trees that the model of front/constred.c agrees bit-for-bit with the run-time semantics written from back/vmexec.c; three-leg correspondence (real reducer vs fold, real VM vs rt_eval, literal-vs-variable metamorphic pairs on the real code)",
